@@ -3,13 +3,17 @@
 target check (and optional extra checks) against each, and keep the confirmed ones as /verif/seeded/<Cnn>-<n>/.
 usage: tools_seed_keep.py Cnn [extra checks...]"""
 import sys, os, json, subprocess, shutil, glob
-prop = sys.argv[1]; extra = sys.argv[2:]
-src = "/tmp/wt/%s/seed" % prop
+prop = sys.argv[1]; extra = [a for a in sys.argv[2:] if not a.startswith("--")]
+root = "/tmp/wt"; off = 0
+for a in sys.argv[2:]:
+    if a.startswith("--root="): root = a[7:]
+    if a.startswith("--offset="): off = int(a[9:])
+src = "%s/%s/seed" % (root, prop)
 for patch in sorted(glob.glob(src + "/patch*.diff")):
     n = os.path.basename(patch)[5:-5]
     demo = "%s/demo%s_test.go" % (src, n)
     notes = "%s/notes%s.md" % (src, n)
-    name = "%s-%s" % (prop, n)
+    name = "%s-%d" % (prop, int(n) + off)
     out = subprocess.run(["python3", "/verif/tools_seed_eval.py", patch, demo, name, prop] + extra, capture_output=True, text=True).stdout
     try:
         r = json.loads(out)
